@@ -168,7 +168,11 @@ impl Optimizer for LM {
             let res_norm_sq = res.dot(&res);
             let new_res_norm_sq = new_res.dot(&new_res);
 
-            let pred_reduction = delta.t_dot(mu * &delta + jtr.data());
+            // the damping term is mu * diag(JtJ), so the predicted reduction carries the same scaling
+            let scaled_delta = (0..param_len)
+                .map(|i| mu * jtj[[i, i]] * delta[i])
+                .collect::<Vector>();
+            let pred_reduction = delta.t_dot(scaled_delta + jtr.data());
 
             // calculate the gain ratio (actual reduction in error over predicted reduction)
             let rho = (res_norm_sq - new_res_norm_sq) / (0.5 * pred_reduction);
